@@ -23,6 +23,9 @@ type TransformKind int
 const (
 	TExact        TransformKind = iota // literal decodes to Pre(v)
 	TLikeContains                      // literal is a LIKE pattern meaning: contains Pre(v)
+	TLikePrefix                        // ... starts with Pre(v)
+	TLikeSuffix                        // ... ends with Pre(v)
+	TLikeExact                         // ... equals Pre(v) (no live wildcard at all)
 )
 
 // Val is the front end's reading of the position: Whole is the value of the position; Hole is the part of it
@@ -85,10 +88,32 @@ func (t Transform) canonical(v Val) (string, bool) {
 	if !ok {
 		return "", false
 	}
-	if t.Kind == TLikeContains {
+	switch t.Kind {
+	case TLikeContains:
 		return "%" + likeEscape(p) + "%", true
+	case TLikePrefix:
+		return likeEscape(p) + "%", true
+	case TLikeSuffix:
+		return "%" + likeEscape(p), true
+	case TLikeExact:
+		return likeEscape(p), true
 	}
 	return p, true
+}
+
+// likeAtoms: what a LIKE pattern of this kind must read as for the literal p: the bytes of p as literal atoms, a live
+// wildcard only where the kind says so - no %, _ or \ of p may be live.
+func (t Transform) likeAtoms(p string) []chlex.LikeAtom {
+	a := chlex.LikeContains(p) // % p %
+	switch t.Kind {
+	case TLikePrefix:
+		return a[1:]
+	case TLikeSuffix:
+		return a[:len(a)-1]
+	case TLikeExact:
+		return a[1 : len(a)-1]
+	}
+	return a
 }
 
 func likeEscape(s string) string {
@@ -107,11 +132,68 @@ func (t Transform) satisfied(decoded string, v Val) bool {
 	if !ok {
 		return false
 	}
-	if t.Kind == TLikeContains {
+	if t.Kind != TExact {
 		atoms, err := chlex.ParseLike(decoded)
-		return err == nil && chlex.LikeEqual(atoms, chlex.LikeContains(p))
+		return err == nil && chlex.LikeEqual(atoms, t.likeAtoms(p))
 	}
 	return decoded == p
+}
+
+// regexCore: the literal a planner may pull out of a regular expression whose parse is a single literal, optionally
+// between .* / anchors / one group: `lit`, `.*lit.*`, `lit.*`, `^lit$`, `(lit)`, `\Qmeta\E`-style escaped text ...
+// (what optimisations that key on the literal-ness of the parsed regex can recognise).  The value is parsed with the
+// standard library, never with the code under test.
+func regexCore(v Val) (string, bool) {
+	exp, err := syntax.Parse(v.Whole, syntax.PerlX)
+	if err != nil {
+		return "", false
+	}
+	var strip func(e *syntax.Regexp) *syntax.Regexp
+	isAny := func(e *syntax.Regexp) bool {
+		return (e.Op == syntax.OpStar) && len(e.Sub) == 1 && (e.Sub[0].Op == syntax.OpAnyCharNotNL || e.Sub[0].Op == syntax.OpAnyChar)
+	}
+	isAnchor := func(e *syntax.Regexp) bool {
+		switch e.Op {
+		case syntax.OpBeginText, syntax.OpBeginLine, syntax.OpEndText, syntax.OpEndLine:
+			return true
+		}
+		return false
+	}
+	strip = func(e *syntax.Regexp) *syntax.Regexp {
+		for e.Op == syntax.OpCapture && len(e.Sub) == 1 {
+			e = e.Sub[0]
+		}
+		if e.Op != syntax.OpConcat {
+			return e
+		}
+		sub := e.Sub
+		for len(sub) > 0 && (isAny(sub[0]) || isAnchor(sub[0])) {
+			sub = sub[1:]
+		}
+		for len(sub) > 0 && (isAny(sub[len(sub)-1]) || isAnchor(sub[len(sub)-1])) {
+			sub = sub[:len(sub)-1]
+		}
+		if len(sub) != 1 {
+			return e
+		}
+		return strip(sub[0])
+	}
+	core := strip(exp)
+	if core.Op != syntax.OpLiteral {
+		return "", false
+	}
+	return string(core.Rune), true
+}
+
+// likeCoreTransforms: the carrier is a LIKE pattern for the literal core of the regex (any of the four LIKE kinds;
+// which one is told by the harmless rendering).
+func likeCoreTransforms() []Transform {
+	return []Transform{
+		{"like_contains_regex_core", TLikeContains, regexCore},
+		{"like_prefix_regex_core", TLikePrefix, regexCore},
+		{"like_suffix_regex_core", TLikeSuffix, regexCore},
+		{"like_exact_regex_core", TLikeExact, regexCore},
+	}
 }
 
 // Variant is one acceptable reading of the position: the harmless stand-ins that take the same planner branch,
@@ -133,9 +215,9 @@ var defaultVariants = []Variant{{Name: "value", BX: "x", BY: "y", T: []Transform
 // when the hole itself contains | - a stand-in with the same number of alternatives.
 func regexValueVariants(q Quoted) []Variant {
 	vs := []Variant{
-		{Name: "value", BX: "x", BY: "y", T: append([]Transform{tExact, tHole}, altTransforms(4)...)},
+		{Name: "value", BX: "x", BY: "y", T: append(append([]Transform{tExact, tHole}, altTransforms(4)...), likeCoreTransforms()...)},
 		{Name: "regex_generic", BX: "x.", BY: "y.", T: []Transform{tExact}},
-		{Name: "plain_value_whole", BX: "x", BY: "y", T: append([]Transform{tExact, tHole}, altTransforms(4)...), Whole: true},
+		{Name: "plain_value_whole", BX: "x", BY: "y", T: append(append([]Transform{tExact, tHole}, altTransforms(4)...), likeCoreTransforms()...), Whole: true},
 		{Name: "regex_generic_whole", BX: "x.", BY: "y.", T: []Transform{tExact}, Whole: true},
 	}
 	if strings.Contains(q.Hole, "|") {
@@ -175,7 +257,7 @@ var lineFilterRegexVariants = []Variant{
 	{Name: "regex_literal_like", BX: "x", BY: "y", T: []Transform{{"like_contains_literal", TLikeContains, regexLiteral(false)}}, Whole: true},
 	{Name: "regex_literal_ilike", BX: "(?i)x", BY: "(?i)y", T: []Transform{{"ilike_contains_literal", TLikeContains, regexLiteral(true)}}, Whole: true},
 	{Name: "regex_match", BX: "x.", BY: "y.", T: []Transform{tExact}, Whole: true},
-	{Name: "regex_match_same_context", BX: "x", BY: "y", T: append([]Transform{tExact, tHole}, altTransforms(4)...)},
+	{Name: "regex_match_same_context", BX: "x", BY: "y", T: append(append([]Transform{tExact, tHole}, altTransforms(4)...), likeCoreTransforms()...)},
 }
 
 // lexed statement
